@@ -333,6 +333,52 @@ def run_R(cx, job):
                                  'of %r' % (src,), {'rules': src}, v0, vec,
                                  'R')
             cx.acc.outcome('set-%d' % n)
+            # the dump is a function of the rule set AS IT NOW STANDS: the
+            # object that was just dumped is changed in place (every dict
+            # mutator) and dumped again - same text as a rule set built from
+            # scratch with the new content
+            if idx % 7 == 0:
+                new = dict(src)
+                for how in ('update', 'pop', 'setdefault', 'assign', 'del',
+                            'ior', 'popitem', 'clear'):
+                    str(rules)
+                    if how == 'update':
+                        rules.update(P.Rules.from_dict({'n0': 'role:zz',
+                                                        'zz': '@'}))
+                        new.update({'n0': 'role:zz', 'zz': '@'})
+                    elif how == 'pop':
+                        rules.pop('q1')
+                        new.pop('q1')
+                    elif how == 'setdefault':
+                        rules.setdefault('sd', cx.parse('role:sd'))
+                        new['sd'] = 'role:sd'
+                    elif how == 'assign':
+                        rules['zz'] = cx.parse('!')
+                        new['zz'] = '!'
+                    elif how == 'del':
+                        del rules['sd']
+                        del new['sd']
+                    elif how == 'ior':
+                        rules |= P.Rules.from_dict({'io': 'not role:r0'})
+                        new['io'] = 'not role:r0'
+                    elif how == 'popitem':
+                        k, _ = rules.popitem()
+                        new.pop(k)
+                    else:
+                        rules.clear()
+                        new.clear()
+                    want = str(P.Rules.from_dict(new))
+                    cx.acc.ev()
+                    if str(rules) != want:
+                        cx.acc.violation(
+                            'R|stale-dump|%s' % how,
+                            'after %s() on a rule set that had been dumped '
+                            'before, str() gives %r, a rule set built from '
+                            'the same content gives %r' %
+                            (how, str(rules)[:200], want[:200]),
+                            {'rules': src, 'mutation': how}, want,
+                            str(rules), 'R')
+                        break
     cx.acc.sample('R', src)
 
 
